@@ -185,7 +185,9 @@ pub fn ref_obj(bytes: &[u8]) -> RefObj {
                 if !(args.len() == 2 || args.len() == 3) || args.iter().any(|a| ref_float(a).is_none()) {
                     return Unsure("vt outside grammar");
                 }
-                soft |= args.iter().any(|a| ref_float(a).map_or(false, |r| r.1));
+                // a third texture coordinate is legal OBJ, but the module documentation
+                // speaks of two: refusing it is defensible
+                soft |= args.len() == 3 || args.iter().any(|a| ref_float(a).map_or(false, |r| r.1));
                 nvt += 1;
             }
             b"vn" => {
